@@ -91,6 +91,12 @@ public:
     // No constructor should be added
     // Provide generic AbstractTensors copy constructor though
     //----------------------------------------------------------------------------------------------------------//
+    // assigning one map to another copies the elements (the implicit copy assignment would rebind the pointer)
+    FASTOR_INLINE TensorMap<T,Rest...>& operator=(const TensorMap<T,Rest...>& src) {
+        if (_data != src._data) trivial_assign(*this, src);
+        return *this;
+    }
+    constexpr TensorMap(const TensorMap<T,Rest...>&) = default;
     template<typename Derived, size_t DIMS>
     FASTOR_INLINE void operator=(const AbstractTensor<Derived,DIMS>& src) {
         FASTOR_ASSERT(src.self().size()==size(), "TENSOR SIZE MISMATCH");
